@@ -192,6 +192,8 @@ def sc_selector(pkg, cls):
         if not pcov:
             out["alt_fits"]["with_y_then_without"] = (dict(X=Arr(X), y=Arr(Y)), dict(X=Arr(XB), y=None))
             out["alt_fits"]["without_y_then_with"] = (dict(X=Arr(X), y=None), dict(X=Arr(XB), y=Arr(YB)))
+        out["param_histories"] = {"n_to_select": (dict(n_to_select=2), None),
+                                  "threshold": (dict(score_threshold=1e-3, score_threshold_type="relative"), None)}
         return out
     return dict(unit="%s.%s" % (pkg, cls), cls="%s.%s" % (pkg, cls), variants=3, make=make)
 
@@ -230,7 +232,8 @@ def sc_dch():
         steps = [("fit", fit), ("score_samples", dict(X=Arr(X), y=Arr(Y[:, 0]))), ("score_feature_matrix", dict(X=Arr(X)))]
         return dict(ctor=ctor, steps=steps, fit=fit,
                     alt_fits={"A_then_B": dict(X=Arr(XB), y=Arr(YB[:, 0])),
-                              "larger_then_smaller": dict(X=Arr(XS), y=Arr(YS[:, 0]))})
+                              "larger_then_smaller": dict(X=Arr(XS), y=Arr(YS[:, 0]))},
+                    param_histories={"tolerance": (dict(tolerance=1e-8), None)})
     return dict(unit="sample_selection.DirectionalConvexHull", cls="sample_selection.DirectionalConvexHull", variants=2, make=make)
 
 
@@ -259,8 +262,13 @@ def sc_pcovr():
                  ("predict", dict(X=Arr(X))), ("predict", dict(T=Arr(T))), ("score", dict(X=Arr(X), Y=Arr(Y)))]
         alt = {} if variant in (2, 3) else {"A_then_B": dict(X=Arr(XB), Y=Arr(YB)),
                                             "larger_then_smaller": dict(X=Arr(XS), Y=Arr(YS))}
+        ph = {}
+        if variant in (0, 1, 4):
+            ph = {"mixing": (dict(mixing=0.8), None),
+                  "space": (dict(space="sample" if variant != 1 else "feature"), None),
+                  "n_components": (dict(n_components=3), None)}
         return dict(ctor=ctor, steps=steps, fit=fitkw, fresh_steps=[("fit_transform", dict(X=Arr(X), y=Arr(Y)))] if variant != 3 else [],
-                    alt_fits=alt)
+                    alt_fits=alt, param_histories=ph)
     return dict(unit="decomposition.PCovR", cls="decomposition.PCovR", variants=6, make=make)
 
 
@@ -282,7 +290,13 @@ def sc_kpcovr():
         steps = [("fit", fitkw), ("transform", dict(X=Arr(X))), ("inverse_transform", dict(T=Arr(T))),
                  ("predict", dict(X=Arr(X))), ("score", dict(X=Arr(X), Y=Arr(Y)))]
         alt = {} if variant == 2 else {"A_then_B": dict(X=Arr(XB), Y=Arr(YB)), "larger_then_smaller": dict(X=Arr(XS), Y=Arr(YS))}
-        return dict(ctor=ctor, steps=steps, fit=fitkw, fresh_steps=[("fit_transform", dict(X=Arr(X), y=Arr(Y)))], alt_fits=alt)
+        ph = {}
+        if variant != 2:
+            ph = {"center": (dict(center=(variant != 1)), None),
+                  "no_inverse": (dict(fit_inverse_transform=False), None),
+                  "mixing": (dict(mixing=0.2), None)}
+        return dict(ctor=ctor, steps=steps, fit=fitkw, fresh_steps=[("fit_transform", dict(X=Arr(X), y=Arr(Y)))], alt_fits=alt,
+                    param_histories=ph)
     return dict(unit="decomposition.KernelPCovR", cls="decomposition.KernelPCovR", variants=4, make=make)
 
 
@@ -298,8 +312,13 @@ def sc_scaler():
                  ("inverse_transform", dict(X_tr=Arr(X)))]
         return dict(ctor=ctor, steps=steps, fit=fit, fresh_steps=[("fit_transform", dict(X=Arr(X)))],
                     alt_fits={"A_then_B": dict(X=Arr(XB), sample_weight=None),
+                              "with_weights_then_without": (dict(X=Arr(X), sample_weight=Arr(w)), dict(X=Arr(XB))),
+                              "without_weights_then_with": (dict(X=Arr(X)), dict(X=Arr(XB), sample_weight=Arr(w))),
                               "larger_then_smaller": dict(X=Arr(XS)),
-                              "with_y_then_without": (dict(X=Arr(X), y=Arr(Y)), dict(X=Arr(XB)))})
+                              "with_y_then_without": (dict(X=Arr(X), y=Arr(Y)), dict(X=Arr(XB)))},
+                    param_histories={"with_mean": (dict(with_mean=(variant == 2)), None),
+                                     "with_std": (dict(with_std=False), None),
+                                     "column_wise": (dict(column_wise=(variant != 1)), None)})
     return dict(unit="preprocessing.StandardFlexibleScaler", cls="preprocessing.StandardFlexibleScaler", variants=3, make=make)
 
 
@@ -315,7 +334,10 @@ def sc_knorm():
         steps = [("fit", fit), ("transform", dict(K=Arr(K)))]
         return dict(ctor=ctor, steps=steps, fit=fit, fresh_steps=[("fit_transform", dict(K=Arr(K)))],
                     alt_fits={"A_then_B": dict(K=Arr(XB @ XB.T)), "larger_then_smaller": dict(K=Arr(XS @ XS.T)),
-                              "with_weights_then_without": (dict(K=Arr(K), sample_weight=Arr(w)), dict(K=Arr(XB @ XB.T)))})
+                              "with_weights_then_without": (dict(K=Arr(K), sample_weight=Arr(w)), dict(K=Arr(XB @ XB.T))),
+                              "without_weights_then_with": (dict(K=Arr(K)), dict(K=Arr(XB @ XB.T), sample_weight=Arr(w)))},
+                    param_histories={"with_center": (dict(with_center=(variant == 1)), None),
+                                     "with_trace": (dict(with_trace=(variant == 2)), None)})
     return dict(unit="preprocessing.KernelNormalizer", cls="preprocessing.KernelNormalizer", variants=3, make=make)
 
 
@@ -331,7 +353,10 @@ def sc_skc():
         steps = [("fit", fit), ("transform", dict(Knm=Arr(Knm)))]
         return dict(ctor=ctor, steps=steps, fit=fit, fresh_steps=[("fit_transform", dict(Knm=Arr(Knm), Kmm=Arr(Kmm)))],
                     alt_fits={"A_then_B": dict(Knm=Arr(XB @ XB[:4].T), Kmm=Arr(XB[:4] @ XB[:4].T)),
-                              "larger_then_smaller": dict(Knm=Arr(XS @ XS[:3].T), Kmm=Arr(XS[:3] @ XS[:3].T))})
+                              "larger_then_smaller": dict(Knm=Arr(XS @ XS[:3].T), Kmm=Arr(XS[:3] @ XS[:3].T)),
+                              "with_weights_then_without": (dict(Knm=Arr(Knm), Kmm=Arr(Kmm), sample_weight=Arr(w)),
+                                                            dict(Knm=Arr(XB @ XB[:4].T), Kmm=Arr(XB[:4] @ XB[:4].T)))},
+                    param_histories={"with_center": (dict(with_center=(variant == 1)), None)})
     return dict(unit="preprocessing.SparseKernelCenterer", cls="preprocessing.SparseKernelCenterer", variants=2, make=make)
 
 
@@ -347,7 +372,9 @@ def sc_ridge():
         fit = dict(X=Arr(X), y=Arr(Y))
         steps = [("fit", fit), ("predict", dict(X=Arr(X))), ("score", dict(X=Arr(X), y=Arr(Y)))]
         return dict(ctor=ctor, steps=steps, fit=fit,
-                    alt_fits={"A_then_B": dict(X=Arr(XB), y=Arr(YB)), "larger_then_smaller": dict(X=Arr(XS), y=Arr(YS))})
+                    alt_fits={"A_then_B": dict(X=Arr(XB), y=Arr(YB)), "larger_then_smaller": dict(X=Arr(XS), y=Arr(YS))},
+                    param_histories={"method": (dict(regularization_method="cutoff" if variant == 0 else "tikhonov"), None),
+                                     "alpha_type": (dict(alpha_type="relative" if variant == 0 else "absolute"), None)})
     return dict(unit="linear_model.Ridge2FoldCV", cls="linear_model.Ridge2FoldCV", variants=2, make=make)
 
 
@@ -361,7 +388,8 @@ def sc_orth():
         fit = dict(X=Arr(X), y=Arr(Y))
         steps = [("fit", fit), ("predict", dict(X=Arr(X))), ("score", dict(X=Arr(X), y=Arr(Y) if variant != 1 else Arr(np.pad(Y, [(0, 0), (0, 2)]))))]
         return dict(ctor=ctor, steps=steps, fit=fit,
-                    alt_fits={"A_then_B": dict(X=Arr(XB), y=Arr(YB)), "larger_then_smaller": dict(X=Arr(XS), y=Arr(YS))})
+                    alt_fits={"A_then_B": dict(X=Arr(XB), y=Arr(YB)), "larger_then_smaller": dict(X=Arr(XS), y=Arr(YS))},
+                    param_histories={"projector": (dict(use_orthogonal_projector=(variant == 1)), None)})
     return dict(unit="linear_model.OrthogonalRegression", cls="linear_model.OrthogonalRegression", variants=3, make=make)
 
 
@@ -775,14 +803,40 @@ def run_histories(rec, sc, variant, dseed, layout="C"):
                 rec.stats["tolerance_used"] += 1
         except Exception as e:     # noqa
             rec.errors["%s determinism %s" % (unit, type(e).__name__)] = 1
-    for hname, second in sorted(spec.get("alt_fits", {}).items()):
+    # histories: name -> (earlier fits [kwargs...], hyper-parameters changed by set_params before the last fit, last fit)
+    hist = {}
+    for hname, second in spec.get("alt_fits", {}).items():
         first = spec["fit"]
         if isinstance(second, tuple):
             first, second = second
+        hist[hname] = ([first], None, second)
+    # round 3: longer and mixed sequences, for every class (not where the fit depends on wall-clock timings)
+    timed = bool(spec.get("nondeterministic"))
+    if not timed:
+        hist["same_data_twice"] = ([spec["fit"]], None, spec["fit"])
+    ab = spec.get("alt_fits", {}).get("A_then_B")
+    if isinstance(ab, dict) and not timed:
+        hist["A_B_then_A"] = ([spec["fit"], ab], None, spec["fit"])
+        sm = spec.get("alt_fits", {}).get("larger_then_smaller")
+        if isinstance(sm, dict):
+            hist["A_smaller_then_B"] = ([spec["fit"], sm], None, ab)
+            hist["smaller_then_larger"] = ([sm], None, spec["fit"])
+    for pname, (params, second) in ({} if timed else spec.get("param_histories", {})).items():
+        hist["set_params:" + pname] = ([spec["fit"]], params, second if second is not None else (ab if isinstance(ab, dict) else spec["fit"]))
+    for hname, (firsts, params, second) in sorted(hist.items()):
+        first = firsts[0]
         case = dict(kind="history", scenario=unit, variant=variant, dseed=dseed, layout=layout, n_extra=N_EXTRA, history=hname)
-        rec.stats["histories"][hname] = rec.stats["histories"].get(hname, 0) + 1
+        rec.stats["histories"][hname.split(":")[0]] = rec.stats["histories"].get(hname.split(":")[0], 0) + 1
         try:
-            fresh = fit_fresh(Cls, sc, variant, dseed, layout, second)
+            if params:
+                ctor = realise(sc["make"](variant, dseed)["ctor"], layout)
+                ctor.update(params)
+                fresh = Cls(**ctor)
+                with warnings.catch_warnings():
+                    warnings.simplefilter("ignore")
+                    invoke(fresh, "fit", realise(second, layout))
+            else:
+                fresh = fit_fresh(Cls, sc, variant, dseed, layout, second)
         except Exception as e:     # noqa
             rec.errors["%s fresh fit %s %s" % (unit, hname, type(e).__name__)] = 1
             continue
@@ -804,12 +858,35 @@ def run_histories(rec, sc, variant, dseed, layout="C"):
         try:
             with warnings.catch_warnings():
                 warnings.simplefilter("ignore")
+                for kw_mid in firsts[1:]:          # further earlier fits, each followed by a use of the object
+                    invoke(est, "fit", realise(kw_mid, layout))
+                    for m, kw in method_steps[:2]:
+                        try:
+                            invoke(est, m, realise(kw, layout))
+                        except Exception:      # noqa
+                            pass
+                if params:
+                    est.set_params(**params)
+        except Exception as e:     # noqa
+            rec.errors["%s intermediate step %s %s" % (unit, hname, type(e).__name__)] = 1
+            continue
+        try:
+            with warnings.catch_warnings():
+                warnings.simplefilter("ignore")
                 invoke(est, "fit", realise(second, layout))
         except Exception as e:     # noqa
             rec.violation("C09 fails: %s refitted (%s) raises %s: %s although a fresh estimator fits the same data" % (
                 unit, hname, type(e).__name__, str(e)[:100]), case, key="%s.fit:refit %s" % (unit, hname))
             continue
         d = state_diff(state(est), state(fresh), ignore)
+        if params:
+            # after set_params the fresh estimator is the one constructed with the new hyper-parameters; attributes
+            # that only the old configuration assigns may be left over: harmless as long as nothing reads them (the
+            # method comparison below decides), so they are counted, not reported
+            left = [x for x in d if x.endswith("left over in the refitted estimator")]
+            if left:
+                rec.stats["leftover_after_set_params"] = rec.stats.get("leftover_after_set_params", 0) + len(left)
+            d = [x for x in d if x not in left]
         if d and tie_explains(Cls, sc, variant, dseed, layout, second, est, fresh):
             rec.stats["ties_skipped"] += 1
         elif d:
